@@ -18,6 +18,8 @@
     tail) so that the model's arithmetic is tied to the recorded arguments.  The formula of the gradient also exists as a *generated* definition
     (Gen/C10_Gradient.v, from the source text); [agree_gen] in Num/GpGen.v evaluates that one. *)
 From Coq Require Import List QArith Qabs Bool Arith ZArith.
+From Coq Require String.
+Notation string := String.string.
 Import ListNotations.
 
 (** * extended values *)
@@ -38,6 +40,41 @@ Definition within_step (acc : bool) (p : Q * bound) : bool :=
 
 Definition within_bounds (x : list Q) (b : list bound) : bool :=
   fold_left within_step (combine x b) true.
+
+(** * [GPyRegression.__init__]: from the user's bounds dict to [surrogate.bounds] (what [_within_bounds] reads)
+
+      elif len(bounds) != input_dim: raise ValueError
+      elif isinstance(bounds, dict):
+          if len(bounds) == 1: bounds = [bounds[n] for n in bounds.keys()]      (parameter_names may be None)
+          else:                bounds = [bounds[n] for n in parameter_names]
+
+    The dict is an association list in INSERTION order (the order in which the user wrote the keys);
+    [_within_bounds] pairs [model.bounds[i]] with coordinate i = parameter_names[i].  (Same text as
+    the C11 model Num/Acq.v [box_of]; kept separately so that this file depends on no other property.) *)
+Definition bdict := list (string * bound).
+
+Fixpoint lookup (d : bdict) (n : string) : option bound :=
+  match d with
+  | [] => None
+  | (k, iv) :: d' => if String.eqb k n then Some iv else lookup d' n
+  end.
+
+(** [[bounds[n] for n in names]] ([None]: KeyError) *)
+Fixpoint lookup_all (d : bdict) (names : list string) : option (list bound) :=
+  match names with
+  | [] => Some []
+  | n :: r => match lookup d n, lookup_all d r with
+              | Some iv, Some b => Some (iv :: b)
+              | _, _ => None
+              end
+  end.
+
+Definition box_of (names : list string) (d : bdict) : option (list bound) :=
+  if negb (Nat.eqb (length d) (length names)) then None          (* ValueError *)
+  else if Nat.eqb (length d) 1 then Some (map snd d)
+  else lookup_all d names.
+
+Definition bound_eqb (x y : bound) : bool := Qeq_bool (fst x) (fst y) && Qeq_bool (snd x) (snd y).
 
 (** * oracle values recorded for one query row *)
 Record gp_oracle := {
@@ -201,7 +238,9 @@ Fixpoint prefix_then (l m rest : list erow) : bool :=
 Record post_case := {
   pc_dim : nat;
   pc_ndim : nat;                         (* x.ndim of the query as passed *)
-  pc_bounds : list bound;
+  pc_names : list string;                (* surrogate.parameter_names *)
+  pc_dict : bdict;                       (* the bounds dict as the user wrote it (key order = insertion order) *)
+  pc_impl_bounds : list bound;           (* surrogate.bounds as read back from the constructed object *)
   pc_t : Q;                              (* posterior.threshold *)
   pc_rows : list row;
   pc_impl_ll : shaped obs;               (* _unnormalized_loglikelihood(x), with its shape class *)
@@ -217,9 +256,15 @@ Record ev_case := {
 
 Inductive case := PostCase (c : post_case) | EvCase (c : ev_case).
 
+(** the box the MODEL's posterior tests against: [box_of parameter_names dict] ([[]] if the constructor raises) *)
+Definition pc_bounds (c : post_case) : list bound :=
+  match box_of (pc_names c) (pc_dict c) with Some b => b | None => [] end.
+
 Definition post_agree (c : post_case) : bool :=
   let b := pc_bounds c in let t := pc_t c in
-  forallb (fun r => oracle_ok (pc_dim c) t (r_orc r) && (length (r_x r) =? pc_dim c)) (pc_rows c)
+  match box_of (pc_names c) (pc_dict c) with Some _ => true | None => false end
+  && all2 bound_eqb b (pc_impl_bounds c)
+  && forallb (fun r => oracle_ok (pc_dim c) t (r_orc r) && (length (r_x r) =? pc_dim c)) (pc_rows c)
   && (length b =? pc_dim c)
   && shaped_all2 ext_obs_close (loglik_out (pc_ndim c) (pc_dim c) b (pc_rows c)) (pc_impl_ll c)
   && shaped_all2 (all2 q_obs_close) (gradlik_out (pc_ndim c) (pc_dim c) b t (pc_rows c)) (pc_impl_gl c)
@@ -241,8 +286,16 @@ Fixpoint rows_ok (b : list bound) (t : Q) (rows : list row) (lps : list obs) (gs
   | _, _, _ => false
   end.
 
+(** "the bounds" of the property are the USER's, parameter by parameter: coordinate i is judged against
+    the interval the dict binds to the NAME parameter_names[i] ([lookup_all], whatever the key order;
+    independent of [box_of] and of what the constructed surrogate stores) *)
 Definition post_ok (c : post_case) : bool :=
-  rows_ok (pc_bounds c) (pc_t c) (pc_rows c) (pc_impl_logpdf c) (pc_impl_grad c).
+  match lookup_all (pc_dict c) (pc_names c) with
+  | Some b => (length (pc_names c) =? pc_dim c)
+              && forallb (fun r => length (r_x r) =? pc_dim c) (pc_rows c)
+              && rows_ok b (pc_t c) (pc_rows c) (pc_impl_logpdf c) (pc_impl_grad c)
+  | None => false
+  end.
 
 Definition ev_agree (c : ev_case) : bool :=
   all2 (fun (m : @evidence erow) (s : list erow * nat) =>
